@@ -275,6 +275,10 @@ func (g *ProgGen) faultStmt() gast.Stmt {
 		}
 	default:
 		body = []gast.Stmt{gast.Assign{Name: "g1", X: gast.Index{X: gast.ArrayLit{Els: []gast.Expr{gast.IntLit{V: 1}}}, I: gast.StrLit{V: "x"}}}}
+		if r.Intn(2) == 0 {
+			// a range whose computed bounds are the wrong way round (the same bounds every time)
+			body = []gast.Stmt{gast.Assign{Name: "g1", X: gast.Infix{Op: "..", L: gast.Infix{Op: "+", L: gast.Ident{Name: "ZERO"}, R: gast.IntLit{V: int64(2 + r.Intn(3))}}, R: gast.Ident{Name: "ZERO"}}}}
+		}
 	}
 	return gast.If{C: gast.Ident{Name: fmt.Sprintf("F%d", k)}, Then: body}
 }
